@@ -562,7 +562,7 @@ def from_json(j) -> Tuple[bytes, str, str, int, bytes, bytes, bytes]:
 def make_case(rng, value, feats: Sequence[str], reader: Optional[str] = None) -> Case:
     sp = Speller(rng, feats)
     s = sp.spell(value)
-    reader = reader or ("getobj" if (value[0] == "ref" or rng.random() < 0.12) else "stream")
+    reader = reader or ("getobj" if rng.random() < (0.5 if value[0] == "ref" else 0.12) else "stream")
     pad = make_pad(rng, rng.choice([0, 0, 1, 2, 3, 7, 8, 9, rng.randint(0, 70)]))
     if reader == "stream" and ends_regular(s) and sp.on("eof_end", 0.15):
         trail = b""
@@ -583,8 +583,6 @@ def shrink_failure(ctx: C.Ctx, case: Case, got: str) -> Tuple[Case, str, List[st
         for t in range(tries):
             r = random.Random("shrink/%d/%s" % (t, canon(value)))
             c2 = make_case(r, value, feats, reader)
-            if reader == "stream" and has_ref(value) and value[0] == "ref":
-                continue
             g = c2.run()
             if g != canon(value):
                 return c2, g
@@ -595,8 +593,6 @@ def shrink_failure(ctx: C.Ctx, case: Case, got: str) -> Tuple[Case, str, List[st
     while changed:
         changed = False
         for sub in sorted(subtrees(best.value), key=size):
-            if sub[0] == "ref" and best.reader == "stream":
-                continue
             r = fails(sub, feats, best.reader)
             if r is not None:
                 best, best_got = r
